@@ -660,7 +660,27 @@ class Parser:
     def parse_if(self):
         self.eat("if")
         if self.peek() == "let":
-            raise Unsupported("if let")
+            # `if let Some(x) = e { … } else { … }`: only this pattern shape is kept (("iflet", ctor, var, e, then, else))
+            self.eat()
+            ctor = self.eat()
+            if ctor not in ("Some", "Ok") or self.peek() != "(":
+                raise Unsupported("if let")
+            self.eat("(")
+            if self.peek() == "mut":
+                self.eat()
+            var = self.eat()
+            self.eat(")")
+            self.eat("=")
+            e = self.parse_expr(nostruct=True)
+            th = self.parse_braced()
+            el = None
+            if self.peek() == "else":
+                self.eat()
+                if self.peek() == "if":
+                    el = ([], self.parse_if())
+                else:
+                    el = self.parse_braced()
+            return ("iflet", ctor, var, e, th, el)
         c = self.parse_expr(nostruct=True)
         th = self.parse_braced()
         el = None
